@@ -111,6 +111,7 @@ pub fn run_grid(sim: &Sim, idx: u64) {
         script: Script { msgs: (0..nresp).map(|_| compressible(sim)).collect(), disable_compression: shape <= 1 && sim.chance(1, 4), /* documented: no effect on response streams */ src_pending: sim.pick(&[0u64, 30]), ..Default::default() },
         req_src_pending: 0,
         extra_polls: 0,
+        early_trailers_after: None,
     };
     sim.nontrivial();
     sim.sample(|| format!("grid cell {cell}: {:?} shape={} disable_compression={}", cfg, c02::SHAPES[shape], plan.script.disable_compression));
